@@ -178,9 +178,9 @@ func formatLaws(r *kit.Rec, c ScriptCase, cc *kit.Case, fuzz bool) *Fingerprint 
 }
 
 type stab struct {
-	changed  bool     // the second pass changed the text
-	unstable bool     // ... and the third pass changed it again (or a pass failed)
-	class    string   // defect class of an unstable format
+	changed  bool   // the second pass changed the text
+	unstable bool   // ... and the third pass changed it again (or a pass failed)
+	class    string // defect class of an unstable format
 	err      error
 	trace    []string // outputs of the passes, starting with the first
 }
@@ -401,7 +401,6 @@ func pipelineTickLaw(r *kit.Rec, c ScriptCase, s2 string, err error, fp Fingerpr
 	cc.Label("tick-roundtrip-checked")
 }
 
-
 func TestPipeline(t *testing.T) {
 	r := kit.NewRec("C13", "Pipeline", rulePipeline, assumptionsPipeline...)
 	kit.Check(t, r, genPipelineWith(r), runPipelineWith(r))
@@ -416,9 +415,9 @@ func TestReplayPipeline(t *testing.T) {
 
 type LambdaCase struct {
 	E       *Expr    `json:"e"`
-	Text    string   `json:"text"`             // the expression as source text (required parentheses + noise)
-	Labels  []string `json:"labels,omitempty"` // generator-side classes (operators, literal forms, comment positions)
-	Witness bool   `json:"witness,omitempty"` // saved witness of a known defect: no law is skipped
+	Text    string   `json:"text"`              // the expression as source text (required parentheses + noise)
+	Labels  []string `json:"labels,omitempty"`  // generator-side classes (operators, literal forms, comment positions)
+	Witness bool     `json:"witness,omitempty"` // saved witness of a known defect: no law is skipped
 }
 
 // skip reports whether a law must be skipped for a known defect class (counted); witnesses skip nothing.
@@ -438,7 +437,6 @@ func isBigInt(e *Expr) bool {
 	v, _, err := intValue(e.V)
 	return err == nil && (v > 1<<53 || v < -(1<<53))
 }
-
 
 const ruleLambda = "rapid generator of lambda expression trees (every unary/binary operator, calls, all literal kinds and source forms, identifiers) rendered to text with required and redundant parentheses, " +
 	"comments and layout noise; checked on the parser's AST and on directly built ASTs; non-trivial = >= 2 binary operators of different precedence; distinct by case hash"
